@@ -24,6 +24,7 @@ BOUNDS = {
 }
 OUTSIDE = ["corner cells of the halo (covered by C12 only)", "non-square faces", "widths > min(3,N)", "more than 6 faces"]
 ASSUMPTIONS = ["input data finite"]
+SWEEPS = {"nan": 6, "int64": 11}
 KINDS = list(itertools.product((0, 1), ("X", "Y"), (False, True), (False, True)))
 
 
@@ -119,6 +120,10 @@ def case(W, cfg):
         grid = xgcm.Grid(ds, coords={"X": {"center": "xc"}, "Y": {"center": "yc"}}, periodic=False, boundary=rule, fill_value=2.5,
                          face_connections={"face": table}, autoparse_metadata=False)
     fv = W.scalar("fv")
+    # every other case gives the fill value per axis (two different symbols)
+    per_axis = (cfg["N"] + len(cfg["lay"]) + int(cfg["vector"])) % 2 == 1
+    fvs = {"X": W.scalar("fvx"), "Y": W.scalar("fvy")} if per_axis else {"X": fv, "Y": fv}
+    fill_arg = dict(fvs) if per_axis else fv
     dims = {"f": "face", "y": "yc", "x": "xc", "t": "t"}
     order = [dims[c] for c in lay]
     shape = [{"face": F, "yc": N, "xc": N, "t": 2}[d] for d in order]
@@ -139,12 +144,12 @@ def case(W, cfg):
         for comp in ([None] if not cfg["vector"] else ["X", "Y"]):
             lab = "%s:%s:%s" % ("scalar" if comp is None else "comp" + comp, widths["X"], widths["Y"])
             if comp is None:
-                r = pad(da, grid, boundary_width=widths, boundary=rule, fill_value=fv)
+                r = pad(da, grid, boundary_width=widths, boundary=rule, fill_value=fill_arg)
                 own, partner = Ac, None
             else:
                 own, partner = (Ac, Bc) if comp == "X" else (Bc, Ac)
                 d_own, d_par = (da, db) if comp == "X" else (db, da)
-                r = pad({comp: d_own}, grid, boundary_width=widths, boundary=rule, fill_value=fv,
+                r = pad({comp: d_own}, grid, boundary_width=widths, boundary=rule, fill_value=fill_arg,
                         other_component={OTHER[comp]: d_par})
             W.require("dims:" + lab, set(r.dims) == set(order), "dims %s" % (r.dims,))
             rc = r.transpose(*canon).data
@@ -174,7 +179,7 @@ def case(W, cfg):
                                 if src is None:
                                     line = [own[tt, f, J, i] for i in range(N)] if outX else [own[tt, f, j, I] for j in range(N)]
                                     lo, hi = widths[a]
-                                    e_ = spec_pad1d(line, lo, hi, rule, fv)[idx + lo]
+                                    e_ = spec_pad1d(line, lo, hi, rule, fvs[a])[idx + lo]
                                 else:
                                     g, ni, ai, axg, swp, rv = src
                                     arr = own if (comp is None or not swp) else partner
